@@ -32,9 +32,16 @@ def run(ck):
     docs.append('<mjml><mj-head><mj-attributes><mj-all padding="7px"/><mj-class name="k" color="#00ff00"/></mj-attributes></mj-head><mj-body>'
                 '<mj-section><mj-group><mj-column><mj-text mj-class="k">g</mj-text></mj-column><mj-column><mj-image src="https://x/a.png"/></mj-column>'
                 '</mj-group></mj-section></mj-body></mjml>')
+    # components inside mj-hero must see their own document's mj-attributes too
+    for col, fs in (("#aa0000", "31px"), ("#00aa00", "17px")):
+        docs.append('<mjml><mj-head><mj-attributes><mj-text color="%s" font-size="%s"/><mj-button background-color="%s"/><mj-all font-family="Courier"/></mj-attributes></mj-head><mj-body>'
+                    '<mj-hero><mj-text>in hero</mj-text><mj-button href="https://x">hb</mj-button></mj-hero></mj-body></mjml>' % (col, fs, col))
     g = docgen.Gen(rng, attr_prob=0.25)
     for _ in range(2 if ck.quick else 6):
         docs.append(docgen.to_mjml(g.document(with_head=True)))
+    docs.append(docgen.to_mjml(docgen.with_inline_classes(g.document(with_head=True), rng)))
+    docs.append('<mjml><mj-head><mj-style inline="inline">.hl{color:red}</mj-style></mj-head><mj-body><mj-section><mj-column><mj-table><tr><td class="hl" style="padding:4px">c</td></tr></mj-table>'
+                '<mj-text><span class="hl">t</span></mj-text></mj-column></mj-section></mj-body></mjml>')
     kinds = [(p, d) for p in PATHS for d in range(len(docs))]
     # baselines: each (path, doc) as the first call of a fresh process
     base_jobs = [{"id": i, "docs": docs, "calls": [{"path": p, "doc": d}]} for i, (p, d) in enumerate(kinds)]
